@@ -241,8 +241,9 @@ def crosshair_num_iterations(ck):
 def check_dqn_target(ck):
     envd = TimeLimit(UFEnv(Discrete(2)), 3)
     cb = empty_callback()
-    for I in ((1, 2, 3) if not ck.thorough else (1, 2, 3, 5)):
-        algo = DQN(buffer_size=4, learning_starts=1, num_envs=1, num_steps=1, batch_size=2, target_update_interval=I)
+    # (interval, num_envs): the interval counts iterations whatever the number of parallel environments
+    for I, E_ in (((1, 1), (2, 1), (3, 1), (4, 2)) if not ck.thorough else ((1, 1), (2, 1), (3, 1), (5, 1), (4, 2), (3, 2), (6, 3))):
+        algo = DQN(buffer_size=4 * E_, learning_starts=1, num_envs=E_, num_steps=1, batch_size=2, target_update_interval=I)
         pol = MLPQPolicy(envd, width_size=2, depth=1, key=jr.key(0))
         tr, it, S, out = iteration_trace("DQN", algo, envd, pol, cb)
         c0 = S["st_iteration_count"][()]
@@ -263,7 +264,7 @@ def check_dqn_target(ck):
             want = out.policy if (c + 1) % I == 0 else st.target_policy
             return (not leaves_equal(out.target_policy, want)), {"count_before": c, "interval": I, "target_equals_new_online": leaves_equal(out.target_policy, out.policy),
                                                                     "target_unchanged": leaves_equal(out.target_policy, st.target_policy)}
-        ck.prove(f"dqn.target_step@I={I}", A, gA, replay=replay_generic(tr, S, it, orc, real=real_dqn), timeout=120)
+        ck.prove(f"dqn.target_step@I={I}" + (f",E={E_}" if E_ > 1 else ""), A, gA, replay=replay_generic(tr, S, it, orc, real=real_dqn), timeout=120)
         if I == 2:
             ck.witness("witness.dqn_no_update_reachable", A + [c1 % I != 0])
             wrong = conj([eq_arr(out[n], np.array([it.o.ite(c0 % I == 0, x, y) for x, y in zip(out["policy_" + n[len("target_policy_"):]].reshape(-1), S["st_" + n].reshape(-1))], dtype=object).reshape(S["st_" + n].shape)) for n in tnames])
